@@ -63,6 +63,23 @@ let run_sa cap ops =
        | _ -> ());
       dump !a; pr "\n") ops
 
+(* StaticArrayT<uint8_t, N>: value-initialised to 0, but clear() fills with filler<Short>() = 255 and empty() compares with it *)
+let run_sa8 cap ops =
+  let b v = ((v mod 256) + 256) mod 256 in
+  let dump a = pr " items=%s count=%d" (String.concat "," (List.map (fun i -> string_of_int (sa_get 0 a (nat_of_int i))) (range 0 cap))) (int_of_nat (length a)) in
+  let a = ref (sa_init 0 (nat_of_int cap)) in
+  pr "init"; dump !a; pr "\n";
+  List.iter (fun (name, args) ->
+      pr "%s%s" name (args_str args);
+      (match name, args with
+       | "set", [i; v] -> a := sa_set !a (nat_of_int i) (b v)
+       | "get", [i] -> pr " ->%d" (sa_get 0 !a (nat_of_int i))
+       | "fill", [v] | "ctorfill", [v] -> a := sa_fill !a (b v)
+       | "isempty", _ -> pr " ->%d" (if List.for_all (fun i -> sa_get 0 !a (nat_of_int i) = 255) (range 0 cap) then 1 else 0)
+       | "clear", _ -> a := sa_clear 255 !a
+       | _ -> ());
+      dump !a; pr "\n") ops
+
 let run_da cap ops =
   let dump a = pr " iter=%s count=%d empty=%d" (String.concat "," (List.map string_of_int (da_to_list 0 a))) (int_of_nat a.da_count) (if da_empty a then 1 else 0) in
   let a = ref (da_init 0 (nat_of_int cap)) in
@@ -137,6 +154,7 @@ let () =
              | "bw" -> List.iter (fun (_, args) -> match args with [v] -> pr "bw %d ->%d\n" v (int_of_n (bitWidth (n_of_int v))) | _ -> ()) ops
              | "ba" -> run_ba cap ops
              | "sa" -> run_sa cap ops
+             | "sa8" -> run_sa8 cap ops
              | "da" -> run_da cap ops
              | "tl" -> run_tl cap ops
              | "bs" -> run_bs cap ops
